@@ -100,6 +100,12 @@ Theorem parse_equiv :
     end.
 Proof. exact parse_equiv_lemma. Qed.
 
+(* the vector ast::parse returns is the reverse-Polish form of a tree, so the
+   slicing of eval (split_last, split_at, expect) never panics on it *)
+Theorem parse_wf :
+  forall st ns st', fin_ok st -> parse st = POk ns st' -> exists e, Repr e ns.
+Proof. exact parse_wf_lemma. Qed.
+
 (* ---- evaluator ------------------------------------------------------------------------ *)
 
 (* the bit trick of `<<`: checked_shl + `result >= 0 && result >> rhs == lhs`
@@ -222,6 +228,7 @@ Print Assumptions operator_table_is_longest_match.
 Print Assumptions lex_equiv.
 Print Assumptions precedence_is_C.
 Print Assumptions parse_equiv.
+Print Assumptions parse_wf.
 Print Assumptions shl_filter_exact.
 Print Assumptions binary_result_exact_or_error.
 Print Assumptions arith_in_range.
